@@ -8,12 +8,13 @@ and work directory); different properties run side by side.  Exit 1 if a seed is
 its demo, does not apply, or is missed by the check of its own property.
 """
 import json
+VERIF = __import__("os").path.dirname(__import__("os").path.dirname(__import__("os").path.abspath(__file__)))  # this checkout, wherever it is
 import os
 import subprocess
 import sys
 from concurrent.futures import ThreadPoolExecutor
 
-ROOT = "/verif/seeded"
+ROOT = VERIF + "/seeded"
 
 
 def one(seed):
@@ -22,7 +23,7 @@ def one(seed):
         pid = json.load(open(os.path.join(ROOT, seed, "meta.json"))).get("check_with", [pid])[0]  # a few changes belong to another property's check
     except Exception:
         pass
-    r = subprocess.run(["/venv/bin/python", "/verif/tools/seedcheck.py", os.path.join(ROOT, seed), pid, "--keep"], capture_output=True, text=True)
+    r = subprocess.run(["/venv/bin/python", VERIF + "/tools/seedcheck.py", os.path.join(ROOT, seed), pid, "--keep"], capture_output=True, text=True)
     try:
         res = json.loads(r.stdout[: r.stdout.rindex("}") + 1])
     except Exception:
